@@ -25,7 +25,7 @@ from simkit.rng import seed_globals  # noqa: E402
 from simkit.world import InvalidScenario, Monitor, Violation, result, run_sim  # noqa: E402
 
 PROPERTY = "C11"
-RUNS = {"quick": 2400, "thorough": 300_000}
+RUNS = {"quick": 2000, "thorough": 300_000}
 WALL = {"quick": 50, "thorough": 1500}
 BATCH = {"quick": 25, "thorough": 200}
 SELFTEST_RUNS = 8
@@ -62,8 +62,8 @@ ASSUMPTIONS = [
     "applies are observed through the state machine: the k-th apply call on a node must be the command at its log index k",
     "the match_index fine invariant is judged when a success response is sent, and only while responder and addressee are both "
     "still in the response's term and the addressee still leads it (otherwise Raft itself allows the logs to diverge)",
-    "a success response of an older term reaching a leader is only counted (probe), not judged: in this implementation it cannot "
-    "move commit_index because only current-term entries are counted",
+    "after a leader handled an AppendEntries response from a peer whose term is not above its own, its match_index entry for "
+    "that peer must be a prefix the peer really shares with it (covers replies of older terms that are wrongly accepted)",
     "liveness class: no faults, every delay <= 5% of election_timeout_min, election_timeout_max >= 2*min, heartbeat <= 0.3*min; "
     "'established' = one LEADER and all other nodes FOLLOWER in its term; must happen within 10*election_timeout_max; commands "
     "are then submitted only at instants at which that holds; bound = 20 heartbeats + 6 max delays after the last submit",
@@ -150,6 +150,10 @@ def _former_leader_episode(rng, sc, et_min, et_max, hb):
         f = rng.randrange(5)
         sc["node_et"] = [[et_min, round(et_min * 1.2, 6)] if j == f else [round(et_min * 1.6, 6), round(max(et_max, et_min * 1.7) * 1.5, 6)]
                          for j in range(5)]
+    if rng.random() < 0.5:      # replies of the first leadership that arrive during the second one
+        sc["profile"] = {"base": sc["profile"].get("base", 0.001), "jitter": sc["profile"].get("jitter", 0.0),
+                         "straggler_p": rng.choice([0.03, 0.08, 0.15]),
+                         "straggler": round((cut_len + 4 * et_max) * rng.uniform(0.6, 1.6), 6)}
     sc["episode"] = "former-leader"
 
 
